@@ -9,12 +9,10 @@ import (
 	"path/filepath"
 	"strings"
 	"sync"
-	"time"
 
 	"github.com/dolthub/dolt/go/libraries/doltcore/doltdb"
 	"github.com/dolthub/dolt/go/libraries/doltcore/ref"
 	"github.com/dolthub/dolt/go/libraries/utils/filesys"
-	"github.com/dolthub/dolt/go/libraries/utils/verifhook"
 	"github.com/dolthub/dolt/go/store/hash"
 	"github.com/dolthub/dolt/go/store/types"
 
@@ -522,246 +520,4 @@ func c35transferCase(c *rig.Ctx, srv *sqlrig.Server, dir string, port, i int, tl
 		compareGraphs("http-pull", src, hc, sh["main"])
 	}
 	distinct("http")
-}
-
-// ---------------------------------------------------------------------------------------------------------------
-// C35, stage "concurrent-push".
-
-func c35concurrent(c *rig.Ctx) {
-	c.Rule("rounds of two pushers that cloned the same remote head H0 and each committed a different new head; both call dolt_push('origin','main') " +
-		"at the same moment — in one server process (two databases, two sessions, datas.update.beforeCommit / nbs.commit.beforeManifestUpdate " +
-		"stretched by verifhook sleeps) and from two separate server processes (child processes released by a barrier file). In a quarter of the " +
-		"rounds B's head descends from A's (B fetched it through a side remote). Rule: both may succeed only if one head descends from the " +
-		"other; the remote head afterwards is the head of a successful pusher (H0 if none), never one that drops an acknowledged push; its " +
-		"closure is complete; the loser then pulls and pushes and the remote converges. distinct = (mode, outcome) pairs")
-	dir := c.TempDir("c35c")
-	defer os.RemoveAll(dir)
-	srv, err := sqlrig.Start(filepath.Join(dir, "data"))
-	rig.Must(err)
-	defer srv.Stop()
-	tl := newTally()
-	verifhook.Set("datas.update.beforeCommit", verifhook.Action{Kind: "sleep", Sleep: 2 * time.Millisecond})
-	verifhook.Set("nbs.commit.beforeManifestUpdate", verifhook.Action{Kind: "yield"})
-	defer verifhook.Clear("")
-
-	judge := func(mode string, round int, desc bool, h0, a1, b1 string, errA, errB error, remDir string, wit map[string]any) {
-		okA, okB := errA == nil, errB == nil
-		out := fmt.Sprintf("A=%v,B=%v", okA, okB)
-		tl.inc("c35.concurrent." + mode + ".rounds")
-		tl.inc("c35.concurrent." + mode + ".outcome." + out)
-		if okA != okB {
-			tl.inc("c35.concurrent_rounds_with_one_loser")
-		}
-		c.Distinct(fmt.Sprintf("c35c/%s/desc=%v/%s", mode, desc, out))
-		wit["outcome"] = out
-		wit["errA"], wit["errB"] = fmt.Sprint(errA), fmt.Sprint(errB)
-		if okA && okB && !desc {
-			c.Violation("c35/concurrent-push/both-succeeded/"+mode, fmt.Sprintf("two concurrent pushes from the same old head %s with unrelated new heads %s and %s were both acknowledged", h0, a1, b1), wit)
-		}
-		v := viewRemote(remDir)
-		if v.Err != "" {
-			c.Violation("c35/concurrent-push/remote-unopenable", "remote cannot be opened after concurrent pushes: "+v.Err, wit)
-			return
-		}
-		got := v.Heads["heads/main"]
-		var allowed []string
-		switch {
-		case okA && okB && desc:
-			allowed = []string{b1} // b1 descends from a1: a remote at a1 would have dropped acknowledged b1
-		case okA && okB:
-			allowed = []string{a1, b1}
-		case okA:
-			allowed = []string{a1}
-		case okB:
-			allowed = []string{b1}
-		default:
-			allowed = []string{h0}
-		}
-		ok := false
-		for _, a := range allowed {
-			ok = ok || a == got
-		}
-		if !ok {
-			c.Violation("c35/concurrent-push/remote-head/"+mode, fmt.Sprintf("after concurrent pushes (%s) the remote head is %s; allowed %v (h0=%s a1=%s b1=%s)", out, got, allowed, h0, a1, b1), wit)
-		}
-		if rep := sqlrig.WalkClosure(v.ddb, nil, false); len(rep.Problems) > 0 {
-			c.Violation("c35/concurrent-push/remote-closure/"+mode, fmt.Sprintf("after concurrent pushes the remote has dangling chunks: %v", rep.Problems), wit)
-		}
-	}
-
-	// --- in one process
-	n1 := c.Pick(10, 150)
-	for round := 0; round < n1; round++ {
-		r := c.SubRand("c35c-in", round)
-		desc := r.Intn(4) == 0
-		da, dbb := fmt.Sprintf("a%d", round), fmt.Sprintf("b%d", round)
-		remDir := filepath.Join(dir, fmt.Sprintf("rem%d", round))
-		sideDir := filepath.Join(dir, fmt.Sprintf("side%d", round))
-		wit := map[string]any{"mode": "in-process", "round": round, "descends": desc}
-		c.Case(fmt.Sprintf("c35/concurrent/in/%d", round), wit)
-		xa, xb := srv.MustOpen(""), srv.MustOpen("")
-		err := script(xa, "create database "+da, "use "+da, "create table t (pk bigint primary key, v varchar(100))",
-			fmt.Sprintf("insert into t values (1,'%s')", randStr(r, 40)), "call dolt_commit('-Am','h0')",
-			"call dolt_remote('add','origin','file://"+remDir+"')", "call dolt_push('origin','main')")
-		if err == nil {
-			err = script(xb, "call dolt_clone('file://"+remDir+"','"+dbb+"')", "use "+dbb)
-		}
-		var h0, a1, b1 string
-		if err == nil {
-			h0, _ = xa.Scalar("select hashof('main')")
-			err = script(xa, fmt.Sprintf("insert into t values (%d,'%s')", 100+round, randStr(r, 60)), "call dolt_commit('-Am','a1')")
-			a1, _ = xa.Scalar("select hashof('main')")
-		}
-		if err == nil && desc {
-			err = script(xa, "call dolt_remote('add','side','file://"+sideDir+"')", "call dolt_push('side','main')")
-			if err == nil {
-				err = script(xb, "call dolt_remote('add','side','file://"+sideDir+"')", "call dolt_fetch('side')", "call dolt_merge('side/main')")
-			}
-		}
-		if err == nil {
-			err = script(xb, fmt.Sprintf("insert into t values (%d,'%s')", 200+round, randStr(r, 60)), "call dolt_commit('-Am','b1')")
-			b1, _ = xb.Scalar("select hashof('main')")
-		}
-		if err != nil {
-			c.Note("concurrent round setup failed: " + trunc(err.Error(), 300))
-			xa.Close()
-			xb.Close()
-			continue
-		}
-		var errA, errB error
-		var wg sync.WaitGroup
-		start := make(chan struct{})
-		wg.Add(2)
-		go func() { defer wg.Done(); <-start; errA = script(xa, "call dolt_push('origin','main')") }()
-		go func() { defer wg.Done(); <-start; errB = script(xb, "call dolt_push('origin','main')") }()
-		close(start)
-		wg.Wait()
-		judge("in-process", round, desc, h0, a1, b1, errA, errB, remDir, wit)
-		// convergence: losers pull and push
-		for k, x := range []*sqlrig.Session{xa, xb} {
-			if (k == 0 && errA == nil) || (k == 1 && errB == nil) {
-				continue
-			}
-			if err := script(x, "call dolt_pull('origin','main')", "call dolt_push('origin','main')"); err != nil {
-				if strings.Contains(err.Error(), "up to date") || strings.Contains(err.Error(), "up-to-date") {
-					continue
-				}
-				c.Violation("c35/concurrent-push/no-convergence", "after losing a concurrent push, pull + push failed: "+err.Error(), wit)
-			} else {
-				tl.inc("c35.concurrent_loser_converged")
-				hh, _ := x.Scalar("select hashof('main')")
-				if v := viewRemote(remDir); v.Heads["heads/main"] != hh {
-					c.Violation("c35/concurrent-push/no-convergence", fmt.Sprintf("after pull + push the remote head is %s, the pusher's head %s", v.Heads["heads/main"], hh), wit)
-				}
-			}
-		}
-		xa.Close()
-		xb.Close()
-	}
-
-	// --- from two server processes
-	n2 := c.Pick(4, 40)
-	type res struct {
-		round      int
-		desc       bool
-		h0, a1, b1 string
-		errA, errB error
-		remDir     string
-		wit        map[string]any
-		ok         bool
-	}
-	results := make([]res, n2)
-	var wg sync.WaitGroup
-	sem := make(chan struct{}, 3)
-	for round := 0; round < n2; round++ {
-		c.Case(fmt.Sprintf("c35/concurrent/proc/%d", round), map[string]any{"mode": "two-processes", "round": round})
-		wg.Add(1)
-		sem <- struct{}{}
-		go func(round int) {
-			defer wg.Done()
-			defer func() { <-sem }()
-			r := c.SubRand("c35c-proc", round)
-			base := filepath.Join(dir, fmt.Sprintf("proc%d", round))
-			os.MkdirAll(base, 0o755)
-			remDir := filepath.Join(base, "rem")
-			fA, fB, fGo := filepath.Join(base, "readyA"), filepath.Join(base, "readyB"), filepath.Join(base, "go")
-			fH0 := filepath.Join(base, "h0pushed")
-			stepsA := []childStep{
-				{SQL: "create database pa"}, {DB: "pa", SQL: "create table t (pk bigint primary key, v varchar(100))"},
-				{SQL: fmt.Sprintf("insert into t values (1,'%s')", randStr(r, 40))}, {SQL: "call dolt_commit('-Am','h0')"},
-				{SQL: "call dolt_remote('add','origin','file://" + remDir + "')"}, {SQL: "call dolt_push('origin','main')"},
-				{SQL: "select hashof('main')"}, // 6: h0
-				{Touch: fH0},
-				{SQL: fmt.Sprintf("insert into t values (%d,'%s')", 100+round, randStr(r, 60))}, {SQL: "call dolt_commit('-Am','a1')"},
-				{SQL: "select hashof('main')"}, // 10: a1
-				{Touch: fA}, {WaitFile: fGo},
-				{SQL: "call dolt_push('origin','main')"}, // 13
-			}
-			stepsB := []childStep{
-				{WaitFile: fH0},
-				{SQL: "call dolt_clone('file://" + remDir + "','pb')"},
-				{DB: "pb", SQL: fmt.Sprintf("insert into t values (%d,'%s')", 200+round, randStr(r, 60))}, {SQL: "call dolt_commit('-Am','b1')"},
-				{SQL: "select hashof('main')"}, // 4: b1
-				{Touch: fB}, {WaitFile: fGo},
-				{SQL: "call dolt_push('origin','main')"}, // 7
-			}
-			hooks := ""
-			if round%2 == 1 {
-				hooks = "datas.update.beforeCommit=sleep(3)"
-			}
-			var oa, ob childOutcome
-			var cw sync.WaitGroup
-			cw.Add(2)
-			go func() { defer cw.Done(); oa = runChild(c, filepath.Join(base, "dataA"), hooks, stepsA) }()
-			go func() { defer cw.Done(); ob = runChild(c, filepath.Join(base, "dataB"), hooks, stepsB) }()
-			go func() {
-				for k := 0; k < 120000; k++ {
-					_, e1 := os.Stat(fA)
-					_, e2 := os.Stat(fB)
-					if e1 == nil && e2 == nil {
-						break
-					}
-					time.Sleep(5 * time.Millisecond)
-				}
-				os.WriteFile(fGo, []byte("x"), 0o644)
-			}()
-			cw.Wait()
-			get := func(o childOutcome, step int) (string, error) {
-				rr := o.result(step)
-				if rr == nil {
-					return "", fmt.Errorf("step %d did not run (exit %d killed %v log %s)", step, o.ExitCode, o.Killed, trunc(o.Log, 300))
-				}
-				if rr.Err != "" {
-					return "", fmt.Errorf("%s", rr.Err)
-				}
-				if len(rr.Rows) > 0 && len(rr.Rows[0]) > 0 {
-					return rr.Rows[0][0], nil
-				}
-				return "", nil
-			}
-			rs := res{round: round, remDir: remDir, wit: map[string]any{"mode": "two-processes", "round": round, "stepsA": stepsA, "stepsB": stepsB, "hooks": hooks}}
-			var e1, e2, e3 error
-			rs.h0, e1 = get(oa, 6)
-			rs.a1, e2 = get(oa, 10)
-			rs.b1, e3 = get(ob, 4)
-			if e1 != nil || e2 != nil || e3 != nil || oa.result(13) == nil || ob.result(7) == nil {
-				c.Note(fmt.Sprintf("two-process round %d setup failed: %v %v %v", round, e1, e2, e3))
-				results[round] = rs
-				return
-			}
-			_, rs.errA = get(oa, 13)
-			_, rs.errB = get(ob, 7)
-			rs.ok = true
-			results[round] = rs
-		}(round)
-	}
-	wg.Wait()
-	for _, rs := range results {
-		if rs.ok {
-			judge("two-processes", rs.round, false, rs.h0, rs.a1, rs.b1, rs.errA, rs.errB, rs.remDir, rs.wit)
-		}
-	}
-	tl.flush(c)
-	c.Require(tl.get("c35.concurrent_rounds_with_one_loser") > 0, "no round of concurrent pushes had exactly one loser")
-	c.Require(tl.get("c35.concurrent.two-processes.rounds") > 0, "no two-process round completed")
 }
